@@ -278,3 +278,7 @@ PROPS.update({
     level_note='Trusted: Lean kernel + standard axioms; the bound is on shared accesses, not on seconds.',
  ),
 })
+
+# properties whose theorem files are still being proved are not claimed yet
+for _p in ('C12', 'C02', 'C03', 'C18'):
+    PROPS[_p]['claimed'] = False
